@@ -123,7 +123,8 @@ func c12Boundary(x *engine.X, tier string) {
 		payload := dgram(3, n)
 		calls := 0
 		var werr error
-		forced := x.Deviate(2, "forced-deferred") == 1
+		syncWrite := x.Pick(2, "asynchronous / blocking write") == 1
+		forced := !syncWrite && x.Deviate(2, "forced-deferred") == 1
 		if forced {
 			ioc.Dispatched = sonic.MaxCallbackDispatch
 		}
@@ -169,7 +170,18 @@ func c12Boundary(x *engine.X, tier string) {
 			if !mapped {
 				ua.IP = ua.IP.To4()
 			}
-			pc.AsyncWriteTo(payload, ua, func(err error) { calls++; werr = err })
+			if syncWrite {
+				werr = pc.WriteTo(payload, ua)
+				calls = 1
+			} else {
+				pc.AsyncWriteTo(payload, ua, func(err error) { calls++; werr = err })
+			}
+		} else if syncWrite {
+			m, err := mp.Write(payload, netip.AddrPortFrom(dst, uint16(rawPort)))
+			calls, werr = 1, err
+			if err == nil && m != n {
+				x.Fail("udp.write/count", "Write of %d bytes reported n=%d", n, m)
+			}
 		} else {
 			mp.AsyncWrite(payload, netip.AddrPortFrom(dst, uint16(rawPort)), func(err error, m int) {
 				calls++
@@ -224,8 +236,17 @@ func c12Boundary(x *engine.X, tier string) {
 		fd2 := raw2
 		x.Defer(func() { syscall.Close(fd2) })
 	}
-	before := x.Deviate(2, "read started before arrival") == 1
-	forced := x.Deviate(2, "forced-deferred") == 1
+	// API variant: packet conn AsyncReadFrom / AsyncReadAllFrom / blocking ReadFrom; peer AsyncRead / blocking Read
+	// (the blocking calls are made once the datagram is there)
+	apiN := 2
+	if target == 0 {
+		apiN = 3
+	}
+	api := x.Pick(apiN, "read API variant")
+	readAll := target == 0 && api == 1
+	syncRead := (target == 0 && api == 2) || (target == 1 && api == 1)
+	before := !syncRead && x.Deviate(2, "read started before arrival") == 1
+	forced := !syncRead && x.Deviate(2, "forced-deferred") == 1
 	type got struct {
 		n    int
 		from string
@@ -236,7 +257,6 @@ func c12Boundary(x *engine.X, tier string) {
 	// the caller's buffer: a slice of its own, or a window into a larger array (len < cap) guarded by canaries —
 	// "truncated to the buffer" is about the slice's length, not its capacity
 	window := x.Deviate(2, "the buffer is a window into a larger array") == 1
-	readAll := target == 0 && x.Pick(2, "AsyncReadFrom / AsyncReadAllFrom") == 1
 	var issue func()
 	issue = func() {
 		buf := make([]byte, bl)
@@ -259,6 +279,22 @@ func c12Boundary(x *engine.X, tier string) {
 			}
 		}
 		calls := 0
+		if syncRead {
+			if target == 0 {
+				m, from, err := pc.ReadFrom(buf)
+				checkCanary(m)
+				f := ""
+				if from != nil {
+					f = from.String()
+				}
+				gots = append(gots, got{m, f, err, append([]byte{}, buf[:max(0, min(m, len(buf)))]...)})
+			} else {
+				m, from, err := mp.Read(buf)
+				checkCanary(m)
+				gots = append(gots, got{m, from.String(), err, append([]byte{}, buf[:max(0, min(m, len(buf)))]...)})
+			}
+			return
+		}
 		if forced {
 			ioc.Dispatched = sonic.MaxCallbackDispatch
 		}
@@ -711,8 +747,107 @@ func c12BufferChain(x *engine.X, n, k int) {
 	x.Outcome(fmt.Sprintf("chain%d/%d", n, k))
 }
 
+// c12WriteChain: n writes, each issued from the previous one's completion callback, with a payload of its own and
+// alternating between two destinations. The 33rd is issued at the dispatch limit and parked. Every destination must
+// receive exactly its datagrams, in order, with the caller's bytes, and every callback runs once with its own result.
+func c12WriteChain(x *engine.X, target, n int) {
+	ioc, _ := sonic.NewIO()
+	x.Defer(func() { ioc.Close() })
+	var pc sonic.PacketConn
+	var mp *multicast.UDPPeer
+	var err error
+	if target == 0 {
+		pc, err = sonic.NewPacketConn(ioc, "udp", "127.0.0.1:0")
+		if err != nil {
+			engine.HarnessError("NewPacketConn: %v", err)
+		}
+		x.Defer(func() { pc.Close() })
+	} else {
+		mp, err = newOwnPeer(ioc, "127.0.0.1")
+		if err != nil {
+			engine.HarnessError("NewUDPPeer: %v", err)
+		}
+		x.Defer(func() { mp.Close() })
+	}
+	var dst [2]int
+	var dport [2]int
+	for i := range dst {
+		dst[i], dport[i], _ = kern.UDPSocket()
+		fd := dst[i]
+		syscall.SetsockoptInt(fd, syscall.SOL_SOCKET, syscall.SO_RCVBUF, 1<<20)
+		x.Defer(func() { syscall.Close(fd) })
+	}
+	calls := make([]int, n)
+	done := 0
+	var issue func(i int)
+	issue = func(i int) {
+		payload := dgram(200+i, 5+i%7)
+		port := dport[i%2]
+		cb := func(err error) {
+			calls[i]++
+			if calls[i] > 1 {
+				x.Fail("udp.write/chain/callback-twice", "write %d of the chain: callback ran %d times", i, calls[i])
+			}
+			if err != nil {
+				x.Fail("udp.write/chain/error", "write %d of the chain: %v", i, err)
+			}
+			done++
+			if i+1 < n {
+				issue(i + 1)
+			}
+		}
+		if target == 0 {
+			pc.AsyncWriteTo(payload, &net.UDPAddr{IP: net.IPv4(127, 0, 0, 1).To4(), Port: port}, cb)
+		} else {
+			mp.AsyncWrite(payload, netip.AddrPortFrom(netip.AddrFrom4([4]byte{127, 0, 0, 1}), uint16(port)), func(err error, m int) {
+				if err == nil && m != len(payload) {
+					x.Fail("udp.write/count", "write %d of the chain (%d bytes) reported n=%d", i, len(payload), m)
+				}
+				cb(err)
+			})
+		}
+	}
+	issue(0)
+	for i := 0; i < n+4 && done < n; i++ {
+		ioc.PollOne()
+	}
+	x.Nontrivial()
+	if done != n {
+		x.Fail("udp.write/chain/incomplete", "%d of %d chained writes completed", done, n)
+	}
+	for k := 0; k < 2; k++ {
+		buf := make([]byte, 64)
+		for i := k; i < n; i += 2 {
+			want := dgram(200+i, 5+i%7)
+			if !kern.AwaitReadReady(dst[k], 300*time.Millisecond) {
+				x.Fail("udp.write/chain/no-datagram", "write %d of a chain of %d reported success; destination %d received only %d datagrams", i, n, k, (i-k)/2)
+			}
+			m, _, rerr := syscall.Recvfrom(dst[k], buf, 0)
+			if rerr != nil || string(buf[:max(m, 0)]) != string(want) {
+				x.Fail("udp.write/chain/datagram-bytes", "destination %d, datagram %d: received %x, write %d of the chain carried %x", k, (i-k)/2, buf[:max(m, 0)], i, want)
+			}
+		}
+		if kern.WouldNotBlockRead(dst[k]) {
+			x.Fail("udp.write/chain/extra-datagram", "destination %d received more datagrams than were written to it", k)
+		}
+	}
+	x.Outcome(fmt.Sprintf("writechain/%d/%d", target, n))
+}
+
 func c12Buffer(x *engine.X) {
-	switch x.Pick(4, "buffer scenario") {
+	switch x.Pick(8, "buffer scenario") {
+	case 4:
+		c12WriteChain(x, 0, 34)
+		return
+	case 5:
+		c12WriteChain(x, 1, 34)
+		return
+	case 6:
+		c12WriteChain(x, 0, 70)
+		return
+	case 7:
+		c12WriteChain(x, 1, 70)
+		return
 	case 1:
 		c12BufferChain(x, 34, 2)
 		return
@@ -804,7 +939,7 @@ func C12(tier string) *engine.Report {
 	tot.Add(d.Run(), rep)
 	_, _, ok := mcastInterface()
 	tot.Fill(rep, "boundary: every datagram size 1..1472 and {1473,4096,9000,65507} x packet conn / multicast peer x read (buffer shorter/exact/longer; burst, second sender, early start, forced-deferred as deviations) / write; "+
-		"member: all sequences up to depth 3/4 of 14 membership calls over 2 groups x 2 sources with a probe per group and a fence after every call; getter: all sequences up to depth 3 of 10 setters x 5 bind forms against getsockopt/getsockname; buffer: SetAsyncReadBuffer chains, and chains of 34/40/70 reads over queued datagrams with a ring of 2/4/3 buffers (crossing the dispatch limit); "+
+		"member: all sequences up to depth 3/4 of 14 membership calls over 2 groups x 2 sources with a probe per group and a fence after every call; getter: all sequences up to depth 3 of 10 setters x 5 bind forms against getsockopt/getsockname; buffer: SetAsyncReadBuffer chains, and chains of 34/40/70 reads over queued datagrams with a ring of 2/4/3 buffers (crossing the dispatch limit); chains of 34/70 writes with distinct payloads to two alternating destinations; "+
 		"non-trivial = a datagram was transferred or a call made", d.MaxDeviations)
 	rep.Coverage["multicast_interface_available"] = ok
 	if !ok {
